@@ -15,7 +15,26 @@ from .rustmon import serde_args, wire_name
 from .workload import TGen
 
 RUST = os.path.join(common.VERIF, ".rust")
-CARGO = shutil.which("cargo") or os.path.expanduser("~/.cargo/bin/cargo")
+def _find_cargo():
+    """A cargo that RUNS here: ~/.cargo/bin/cargo is a rustup proxy that needs HOME and a default
+    toolchain; the toolchain's own binary does not (its bin directory is put on PATH for rustc)."""
+    import glob
+
+    cands = [shutil.which("cargo"), os.path.expanduser("~/.cargo/bin/cargo"), "/root/.cargo/bin/cargo"]
+    cands += sorted(glob.glob("/root/.rustup/toolchains/stable-*/bin/cargo")) + sorted(glob.glob(os.path.expanduser("~/.rustup/toolchains/stable-*/bin/cargo")))
+    for c in cands:
+        if not c or not os.path.exists(c):
+            continue
+        try:
+            env = dict(os.environ, PATH=os.path.dirname(c) + os.pathsep + os.environ.get("PATH", ""))
+            if subprocess.run([c, "--version"], capture_output=True, text=True, timeout=60, env=env).returncode == 0 and subprocess.run(["rustc", "--version"], capture_output=True, text=True, timeout=60, env=env).returncode == 0:
+                return c
+        except Exception:
+            continue
+    return None
+
+
+CARGO = _find_cargo() or os.path.expanduser("~/.cargo/bin/cargo")
 VENDOR = ["serde-1.0.228", "serde_core-1.0.228", "serde_derive-1.0.228", "serde_json-1.0.149", "itoa-1.0.17", "memchr-2.7.6", "zmij-1.0.18", "syn-2.0.117", "quote-1.0.45", "proc-macro2-1.0.106", "unicode-ident-1.0.24"]
 
 
@@ -101,6 +120,7 @@ def write_crates(lib_rs_path, rc):
 
 def build(h):
     env = dict(os.environ, CARGO_HOME=os.path.join(RUST, "cargo-home"), CARGO_NET_OFFLINE="true", CARGO_TARGET_DIR=os.path.join(RUST, "target"), RUSTFLAGS="-Awarnings")
+    env["PATH"] = os.path.dirname(CARGO) + os.pathsep + env.get("PATH", "")
     p = subprocess.run([CARGO, "build", "--offline", "--quiet"], cwd=h, env=env, capture_output=True, text=True, timeout=1800)
     return p.returncode, (p.stdout + p.stderr)[-3000:], os.path.join(RUST, "target", "debug", "vfh")
 
@@ -117,7 +137,9 @@ def run(rep, mm, rc, lib_rs_path):
     h = write_crates(lib_rs_path, rc)
     code, out, binp = build(h)
     if code != 0:
-        if "error[E" in out or "error:" in out:
+        # a COMPILE error points into a source file (` --> src/...`); anything else (rustup proxy without a
+        # default toolchain, missing vendored crate, lock files ...) is an environmental failure
+        if ("error[E" in out or "error:" in out) and "-->" in out and "rustup could not choose" not in out:
             rep.fail("generated crate does not compile with --features proposed", {"tail": out[-1500:]})
         else:
             rep.inconc("cargo build failed for an environmental reason: %s" % out[-400:])
